@@ -21,11 +21,19 @@ def build(chk, ip, runner):
         if c.cases[0]['$n'] == 3 and c.cases[0]['$banner'] in ('openssh', 'other'):
             c.ensures = [e for e in c.ensures if "len(ghost('probes')) <= 9" in e or e.startswith("all(p[0] == g_alg")] or c.ensures[:1]
             units.append(u)
+    # one host-key probe: at most one connection and one key-exchange request, sent on an open connection that is closed afterwards
+    from contracts import c11_hostkey
+    for u in c11_hostkey.perform_units():
+        u.contract.ensures = u.contract.ensures[:2]
+        units.append(u)
+    # one group-exchange probe: one reconnect, at most one request, socket closed on every exit, nothing escapes
+    units += c12_gex.send_init_units()
     chk.units = units
-    chk.stubs = c12_gex.stubs()
+    chk.stubs = c12_gex.stubs() + c12_gex.send_init_stubs() + [c for c in c11_hostkey.perform_stubs() if c.qual != 'SSH2_KexDB.get_db']
     chk.customs = [custom_native]
     chk.level = 'other'
-    chk.explanation = ('bound on group-exchange probes proved for every server behaviour (GEXTest.run against an arbitrary _send_init); '
+    chk.explanation = ('proved for every server behaviour: at most 9 group-exchange probes per algorithm (GEXTest.run), one reconnect / at most one request / '
+                       'socket closed per probe (GEXTest._send_init), at most one connection and one request per probed host-key type (HostKeyTest.perform_test); '
                        'connection counts, one request per connection and closing by a bounded check against the fake server\'s connection log')
     chk.not_decided = ['"short-lived" (wall-clock duration of rate-check connections): no notion of time']
 
